@@ -1,4 +1,7 @@
 import Gomacro.Decls
 import Gomacro.Paths
+import Gomacro.Sched
+import Gomacro.Facts.Generated
 import Gomacro.Props.C19
 import Gomacro.Props.C17
+import Gomacro.Props.C20
